@@ -380,6 +380,25 @@ CHECKS["C08"] = {
 }
 
 
+CHECKS["C07"] = {
+    "level": "model_checking",
+    "technique": "stateless deviation-bounded exploration of the segmentation of compressed streams (all cuts / cut pairs / small uniform chunks) with generator ground truth and a bomb-bound oracle, on the real code",
+    "level_text": "Payloads {empty, 1 byte, hello, 300 pseudo-random bytes, 20 KiB text, 100 KiB zeros} x codings {gzip, x-gzip, raw deflate, zlib-wrapped deflate, lzma (alone format), "
+                  "'gzip, deflate', 'deflate, gzip'} x framings {Content-Length, chunked, close-delimited} on the response side and (single codings) on the request side; the compressed stream "
+                  "is delivered whole, with EVERY single cut (all positions when <= 200 bytes, first 32 + last 16 otherwise), every pair of cuts on streams <= 60 (quick) / 200 (thorough) bytes, "
+                  "and in 1-, 2- and 7-byte chunks; delivered bytes must equal the payload. Plain text announced as gzip/deflate/lzma must be passed through. Bombs: 4 MiB (quick) / 64 MiB "
+                  "(thorough) of zeros in 1-3 gzip layers x bomb limit {1 KiB, 64 KiB, default} x delivery {whole, 1 KiB chunks, first 64 bytes one at a time}: delivered <= max(limit, 2048 x "
+                  "compressed) + 8192; layer limits 0..3 x 1..3 layers: exactly min(k, L) layers removed; the virtual clock jumps past the time limit at each of the first 40 gettimeofday calls.",
+    "level_note": "zlib's and the bundled LZMA decoder's own correctness are trusted. Multi-layer bodies are built in the listed order (first coding applied first).",
+    "design_ref": "DESIGN.md §6 C07",
+    "rule": "payload x coding x framing x side x {whole, every cut, cut pairs, 1/2/7-byte}; bombs and layer/clock scenarios; distinct = distinct callback traces",
+    "bounds": {"quick": "pairs on streams <= 60 bytes, 4 MiB bombs; ASan pass without the big payloads", "thorough": "pairs on streams <= 200 bytes, 64 MiB bombs"},
+    "mc_explanation": "states = distinct callback traces, transitions = data calls on the real parser + decompressors",
+    "assumptions": ["IDS personality, request decompression on"],
+    "jobs": lambda tier: [J("decompmc", "plain"), J("decompmc", "asan", ["--big", "0", "--bombs", "0"] if tier == "quick" else ["--big", "1", "--bombs", "0"])],
+}
+
+
 def manifest():
     import json, os
     root = os.path.dirname(os.path.dirname(os.path.abspath(__file__)))
@@ -419,6 +438,7 @@ ENGINES = [
     {"name": "enum_c11", "path": "mc/enum_c11.c", "serves_properties": ["C11"], "kind_free_text": "E3: ambiguity trigger x spelling x permutation x cut product through the real request path"},
     {"name": "ilv", "path": "mc/ilv.c", "serves_properties": ["C19"], "kind_free_text": "E7: all call-level and nested interleavings of parsers sharing one cfg; shared memory mprotect()ed; + tsanrun free-running TSan pass"},
     {"name": "pump", "path": "mc/pump.c", "serves_properties": ["C08"], "kind_free_text": "E6: pump-shape enumeration with a trace-pc-guard work meter"},
+    {"name": "decompmc", "path": "mc/decompmc.c", "serves_properties": ["C07"], "kind_free_text": "E1 on compressed bodies: zlib/lzma generators x cut sets, bomb-bound and layer oracles"},
     {"name": "cutmc", "path": "mc/cutmc.c", "serves_properties": ["C01", "C02", "C03", "C04", "C06", "C10", "C16"], "kind_free_text": "E1: stateless deviation-bounded explorer of segmentation / generated grammar on the real code"},
 ]
 
